@@ -37,6 +37,9 @@ RULE += (
 RULE += (
     " Also: 4076_201 with consecutive layers of another (degree, order) but the same number of cosine coefficients."
 )
+RULE += (
+    " Also: a family member without any payload definition is a violation."
+)
 ASSUMPTIONS = [
     "vf.stdgeom pins RTCM 10403.3 (2016) and IGS SSR v1.00 bit geometry from memory of the standards; entries with "
     "provenance T (1300-1305, NavIC MSM) follow later amendments",
@@ -323,6 +326,13 @@ def sibling_case(ctx, fam_index, seedtag):
     params = {"kind": "sibling", "family": fam_index, "name": name, "seedtag": seedtag}
     defs, _ = refmodel.tables()
     present = {k: v for k, v in members.items() if k in defs}
+    gone = sorted(k for k in members if k not in defs)
+    if gone:
+        # a member of a family the standards define as parallel / composite that cannot be decoded at all decodes the
+        # shared bits to nothing: the family claim fails for it
+        ctx.violation("family-member-undefined", f"family {name}: {gone} ha{'s' if len(gone) == 1 else 've'} no payload "
+                      f"definition while {sorted(present)} have: the same bits are not decoded to the same values", params)
+        return
     if len(present) < 2:
         ctx.hit("family_members_missing")
         return
